@@ -133,6 +133,11 @@ func handTargets() []target {
 	add("err/rethrow", "(handler-bind ([condition (lambda (c &rest d) (rethrow))]) (defun q () (error 'e1 \"m\" (sorted-map 'b 1 'a 2))) (q))")
 	add("err/not-a-function", "(handler-bind ([condition (lambda (c &rest d) d)]) ((car '(5)) 1))")
 	add("err/not-a-function-map", "((sorted-map 'b 1 'a 2) 1)")
+	add("err/kw-unrecognized-3", "(defun kw (&key a) a) (kw :zz 1 :yy 2 :xx 3)")
+	add("err/kw-unrecognized-handler", "(defun kw (&key a b) (list a b)) (handler-bind ([condition (lambda (c &rest d) (list c d))]) (kw :q 1 :a 2 :r 3 :s 4 :t 5))")
+	add("err/kw-lambda", "((lambda (&key k) k) :m 1 :n 2 :o 3 :p 4)")
+	add("err/kw-odd", "(defun kw (&key a) a) (kw :a 1 :b)")
+	add("err/optional-extra", "(defun op (a &optional b) a) (op 1 2 3 4)")
 	add("err/arity", "(defun two (a b) a) (two 1)")
 	add("gensym", "(list (gensym) (gensym) (gensym))")
 	add("gensym-macro", "(defmacro sw (a b) (let ([t (gensym)]) (quasiquote (let ([(unquote t) (unquote a)]) (list (unquote b) (unquote t)))))) (macroexpand '(sw 1 2))")
